@@ -739,3 +739,14 @@ Proof.
     + intros i Hi. assert (Hc : i = 0 \/ i = 1 \/ i = 2) by lia. cbn [ts_active].
       destruct Hc as [->|[->| ->]]; [exists 0, 5|exists 1, 5|exists 2, 5]; cbn; tauto.
 Qed.
+
+Lemma window_facts n b p rf q i : 0 < n -> 0 < b ->
+  length (replica_indices RfWide n b rf q) = N.to_nat (N.min rf n) /\
+  NoDup (replica_indices RfWide n b rf q) /\
+  (forall j, In j (replica_indices RfWide n b rf q) -> j < n) /\
+  (In q (topo_assigned n b p rf i) <-> q < p /\ In i (replica_indices RfWide n b rf q)).
+Proof.
+  intros Hn Hb. split; [exact (replica_indices_length RfWide n b rf q)|].
+  split; [exact (replica_indices_NoDup RfWide n b rf q Hn)|].
+  split; [exact (fun j => replica_indices_lt RfWide n b rf q j Hn)|exact (topo_assigned_In n b p rf i q Hn Hb)].
+Qed.
